@@ -299,6 +299,11 @@ func genC02Tx(t *rapid.T, p *gen.Profile, pools *gen.Pools) (*m.Tx, string) {
 		po := mkPosting(false)
 		sym := rapid.SampledFrom(syms).Draw(t, "rsym")
 		q := gen.GenNum(t, 4, 5)
+		if rapid.IntRange(0, 3).Draw(t, "tinyresidual") == 0 {
+			// the rule is exact at any precision: a residual far below any display precision
+			q = gen.GenNum(t, 0, 3)
+			q.Scale = rapid.IntRange(9, 30).Draw(t, "tinyscale")
+		}
 		if q.IsZero() {
 			q.Mant = "1"
 		}
